@@ -137,7 +137,15 @@ pub fn exec(cx: &mut Ctx, h: &Hist) {
                     (false, false) // beyond "expressible in 64 bits": either outcome, checked by what follows
                 };
                 cx.log.class(&format!("seekty={}/{}", ty.name(), if must_ok { "in-range" } else if must_err { "out-of-range" } else { "unspecified" }));
-                let r = guarded(|| ci.try_seek(*ty, *v, *neg));
+                // where the model demands success, one seek in three goes through the provided `seek()`
+                let r = if must_ok && *ty == SeekTy::U64 && (i + h.kseed as usize) % 3 == 0 {
+                    guarded(|| {
+                        ci.seek_infallible_u64(*v as u64);
+                        Ok(())
+                    })
+                } else {
+                    guarded(|| ci.try_seek(*ty, *v, *neg))
+                };
                 cx.log.eval(1);
                 match r {
                     Err(p) => {
@@ -186,7 +194,14 @@ pub fn exec(cx: &mut Ctx, h: &Hist) {
                 let orig = drng.bytes(*n);
                 let mut data = orig.clone();
                 let expect_ok = pos + *n as u128 <= limit;
-                let r = guarded(|| ci.try_apply(&mut data));
+                let r = if expect_ok && (i + h.kseed as usize) % 3 == 1 {
+                    guarded(|| {
+                        ci.apply_infallible(&mut data);
+                        Ok(())
+                    })
+                } else {
+                    guarded(|| ci.try_apply(&mut data))
+                };
                 cx.log.eval(1);
                 match r {
                     Err(p) => {
@@ -258,9 +273,13 @@ pub fn exec(cx: &mut Ctx, h: &Hist) {
                 }
             }
             Op::Pos { ty } => {
-                let r = guarded(|| ci.try_pos(*ty));
-                cx.log.eval(1);
                 let fits = pos <= ty.max();
+                let r = if *ty == SeekTy::U128 && (i + h.kseed as usize) % 2 == 0 {
+                    guarded(|| Ok(ci.pos_infallible_u128() as i128))
+                } else {
+                    guarded(|| ci.try_pos(*ty))
+                };
+                cx.log.eval(1);
                 match r {
                     Err(p) => {
                         cx.log.panic_violation_ctx(&format!("{}|op=current_pos", sigp), &format!("op #{} {:?} at pos {}", i, op, pos), &p);
